@@ -55,6 +55,7 @@ class _Lock:
 
 def build_lib(variant="asan"):
     """Build libgmssl.a for `variant` from REPO's working tree (incremental). Returns build dir."""
+    variant = os.environ.get("VERIF_FORCE_VARIANT") or variant        # coverage measurement of the checks themselves (tools/covrun.sh): every build becomes this one
     comp, cflags, opts = VARIANTS[variant]
     d = os.path.join(BUILD, "lib_" + variant)
     with _Lock(os.path.join(BUILD, "lock_" + variant)):
@@ -83,6 +84,7 @@ def lib_defines(variant):
 
 def cc_driver(name, sources, variant="asan", extra=(), libs=("-lpthread", "-ldl", "-lm")):
     """Compile harness sources + libgmssl.a(variant) into BUILD/bin_<variant>/<name>."""
+    variant = os.environ.get("VERIF_FORCE_VARIANT") or variant
     d = build_lib(variant)
     comp, cflags, _ = VARIANTS[variant]
     outd = os.path.join(BUILD, "bin_" + variant)
